@@ -80,3 +80,36 @@ def subscribeRun (shared : Bool) (n fuel : Nat) : St :=
   loopRun fuel { assigned := assignedFirst, remaining := n }
 
 end Pipe
+
+namespace Pipe
+
+/-! ## Queued sources behind a producer: why a re-scheduling producer is fair and a looping one starves
+
+A second source subscribed in the same `subscribe()` call (the `of(1)` of `take_until(of(1))`, the inner of
+`flat_map`, the other side of `combine_latest`) schedules its own emitting action on the shared trampoline.
+`Prog` is what sits in the trampoline queue: `loop` = `from_iterable`'s single action that emits while its flag is
+unset (it never returns when nobody sets the flag — it consumes the whole budget); `step k` = one action of a
+re-scheduling producer (`range`, `generate`, `repeat_value`, `repeat`: emit one element, then `schedule(action)`
+again, `k` more to come); `other` = the queued second source's action. -/
+
+inductive Prog where
+  | loop                  -- from_iterable(infinite): while not disposed: on_next(next(it))
+  | step (k : Nat)        -- re-scheduling producer with k further elements after this one
+  | other                 -- the second source's action
+deriving Repr, DecidableEq
+
+inductive QEv where
+  | produced              -- one element of the never-ending producer reached the pipeline
+  | otherRan              -- the queued second source got to run
+deriving Repr, DecidableEq
+
+/-- drain the trampoline queue FIFO under a work budget (one unit per produced element / action). -/
+def drainQ : Nat → List Prog → List QEv
+  | 0, _ => []
+  | _, [] => []
+  | f + 1, .loop :: _ => .produced :: drainQ f [.loop]        -- the loop keeps the thread: nothing behind it ever runs
+  | f + 1, .step 0 :: q => .produced :: drainQ f q
+  | f + 1, .step (k + 1) :: q => .produced :: drainQ f (q ++ [.step k])   -- re-scheduled behind what is already queued
+  | f + 1, .other :: q => .otherRan :: drainQ f q
+
+end Pipe
